@@ -1,5 +1,5 @@
 From Coq Require Import ZArith NArith List Bool Lia ZifyN ZifyBool ZifyNat.
-From Tup Require Import Lib.ByteStr Lib.ByteStrFacts Lib.PyFmt Gen.TmuxGen Model.TmuxTemplate Spec.TmuxSpec.
+From Tup Require Import Lib.ByteStr Lib.ByteStrFacts Lib.PyFmt Lib.PyFmtFacts Gen.TmuxGen Model.TmuxTemplate Spec.TmuxSpec.
 Import ListNotations.
 Open Scope N_scope.
 
@@ -11,38 +11,6 @@ Lemma src_default : default_template = base_template.  Proof. reflexivity. Qed.
 Lemma src_wrapper : tmux_wrapper = dcs_prefix ++ [37; 98] ++ [27; 92].  Proof. reflexivity. Qed.
 Lemma src_from : esc_from = 27.  Proof. reflexivity. Qed.
 Lemma src_to : esc_to = [27; 27].  Proof. reflexivity. Qed.
-
-(* ---------------------------------------------------------------- pyfmt on %-free pieces *)
-Definition pct_free (l : list N) : Prop := has_byte 37 l = false.
-
-Lemma pct_free_cons b l : pct_free (b :: l) <-> b <> 37 /\ pct_free l.
-Proof. unfold pct_free. cbn [has_byte]. rewrite orb_false_iff. split; intros [H1 H2]; split; auto; lia. Qed.
-
-Lemma pct_free_app a b : pct_free (a ++ b) <-> pct_free a /\ pct_free b.
-Proof. unfold pct_free. rewrite has_byte_app, orb_false_iff. tauto. Qed.
-
-Lemma pyfmt_go_free t arg : pct_free t -> pyfmt_go t arg true = Some t.
-Proof.
-  induction t as [|b t IH]; intro H; [reflexivity|].
-  apply pct_free_cons in H. destruct H as [Hb Ht]. cbn [pyfmt_go].
-  destruct (b =? 37) eqn:E; [lia|]. rewrite (IH Ht). reflexivity.
-Qed.
-
-Lemma pyfmt_go_prefix P R c used : pct_free P ->
-  pyfmt_go (P ++ R) c used = match pyfmt_go R c used with Some o => Some (P ++ o) | None => None end.
-Proof.
-  induction P as [|b P IH]; intro HP.
-  - cbn [app]. destruct (pyfmt_go R c used); reflexivity.
-  - apply pct_free_cons in HP. destruct HP as [Hb HP]. rewrite <- app_comm_cons. cbn [pyfmt_go].
-    destruct (b =? 37) eqn:E; [lia|]. rewrite (IH HP). destruct (pyfmt_go R c used); reflexivity.
-Qed.
-
-Lemma pyfmt_split P Q c : pct_free P -> pct_free Q -> pyfmt (P ++ [37; 98] ++ Q) c = Some (P ++ c ++ Q).
-Proof.
-  intros HP HQ. unfold pyfmt. rewrite (pyfmt_go_prefix P _ c false HP).
-  cbn [app pyfmt_go]. change (37 =? 37) with true. change (98 =? 98) with true. cbv iota.
-  rewrite (pyfmt_go_free Q c HQ). reflexivity.
-Qed.
 
 (* ---------------------------------------------------------------- ESC doubling *)
 Definition dbl : list N -> list N := replace1 27 [27; 27].
